@@ -10,10 +10,15 @@
 mod rng;
 mod dns;
 mod sni;
+mod sniff;
 
 use std::io::{BufRead, Write};
 
 fn gen(stream: &str, seed: u64, n: u64) -> Vec<String> {
+    match stream {
+        "sniff-exhaustive" => return sniff::exhaustive(),
+        _ => {}
+    }
     let mut rng = rng::Rng::new(seed ^ fxhash(stream));
     (0..n)
         .map(|i| {
@@ -21,6 +26,7 @@ fn gen(stream: &str, seed: u64, n: u64) -> Vec<String> {
             let body = match stream {
                 "dns" => dns::gen(&mut r, i),
                 "sni" => sni::gen(&mut r, i),
+                "sniff" => sniff::gen(&mut r, i),
                 _ => panic!("unknown stream {stream}"),
             };
             format!("{stream} {body}")
@@ -40,6 +46,7 @@ fn run_line(line: &str) -> String {
     let obs = match stream {
         "dns" => dns::run(&toks),
         "sni" => sni::run(&toks),
+        "sniff" => sniff::run(&toks),
         _ => "unknown-stream".to_string(),
     };
     format!("{input} | {obs}")
